@@ -2,6 +2,8 @@ package props
 
 import (
 	"bytes"
+	"crypto"
+	_ "crypto/sha256"
 	"fmt"
 	"math/big"
 	"os"
@@ -33,6 +35,7 @@ type c20Shared struct {
 	digests [][]byte
 	sigs    [][]byte // ASN.1 signatures by privs[i] over digests[i]
 	ssigs   [][]byte // Schnorr signatures by sprivs[i] over digests[i]
+	dsts    [][]byte // domain separation tags: short, 255, 256 and two different oversize ones
 }
 
 func buildShared(seed int64, batch int) *c20Shared {
@@ -59,6 +62,7 @@ func buildShared(seed int64, batch int) *c20Shared {
 		}
 		s.ssigs = append(s.ssigs, ssig)
 	}
+	s.dsts = [][]byte{[]byte("verif-c20"), bytes.Repeat([]byte{'a'}, 255), bytes.Repeat([]byte{'b'}, 256), append(bytes.Repeat([]byte{'c'}, 300), rng.Bytes(8)...), append(bytes.Repeat([]byte{'d'}, 1000), rng.Bytes(8)...)}
 	pool := knownPointPool(seed, 3)
 	for i := 0; i < 4; i++ {
 		P := pool[(i*7)%len(pool)]
@@ -77,7 +81,7 @@ func c20Call(s *c20Shared, rng *gen.Rng) (name string, obj int, out []byte) {
 	pi := rng.Intn(len(s.points))
 	si := rng.Intn(len(s.scalars))
 	k, pub := s.privs[ki], s.pubs[ki]
-	op := rng.Intn(26)
+	op := rng.Intn(38)
 	switch op {
 	case 0:
 		sig, err := k.Sign(secec.RFC6979SHA256(), s.digests[ki], &secec.ECDSAOptions{Encoding: secec.SignatureEncoding(rng.Intn(3)), SelfVerify: rng.Bool()})
@@ -185,6 +189,93 @@ func c20Call(s *c20Shared, rng *gen.Rng) (name string, obj int, out []byte) {
 	case 24:
 		spk := bitcoin.NewSchnorrPublicKeyFromECDSA(pub)
 		return "NewSchnorrPublicKeyFromECDSA", ki, spk.Bytes()
+	case 26:
+		dst := s.dsts[rng.Intn(len(s.dsts))]
+		p, err := h2c.Secp256k1_XMD_SHA256_SSWU_RO(dst, s.digests[rng.Intn(len(s.digests))])
+		if err != nil {
+			return "h2c RO (all DST lengths)", 400, []byte(err.Error())
+		}
+		return "h2c RO (all DST lengths)", 400, p.UncompressedBytes()
+	case 27:
+		dst := s.dsts[rng.Intn(len(s.dsts))]
+		p, err := h2c.Secp256k1_XMD_SHA256_SSWU_NU(dst, s.sigs[rng.Intn(len(s.sigs))])
+		if err != nil {
+			return "h2c NU (all DST lengths)", 400, []byte(err.Error())
+		}
+		return "h2c NU (all DST lengths)", 400, p.CompressedBytes()
+	case 28:
+		src := append(append([]byte{}, s.digests[ki]...), s.digests[(ki+1)%len(s.digests)][:16]...)
+		return "SetUniformBytes", 400, new(Point).SetUniformBytes(src).UncompressedBytes()
+	case 29:
+		r, sc, err := secec.ParseASN1Signature(s.sigs[ki])
+		if err != nil {
+			return "Verify compact/recoverable", ki, []byte(err.Error())
+		}
+		out := []byte{byte(boolU64(pub.Verify(s.digests[ki], secec.BuildCompactSignature(r, sc), &secec.ECDSAOptions{Encoding: secec.EncodingCompact, RejectMalleable: true})))}
+		for id := byte(0); id < 4; id++ {
+			out = append(out, byte(boolU64(pub.Verify(s.digests[ki], secec.BuildCompactRecoverableSignature(r, sc, id), &secec.ECDSAOptions{Encoding: secec.EncodingCompactRecoverable}))))
+		}
+		out = append(out, byte(boolU64(pub.VerifyRaw(s.digests[ki], r, sc))))
+		return "Verify compact/recoverable/raw", ki, append(out, secec.BuildASN1Signature(r, sc)...)
+	case 30:
+		j := rng.Intn(len(s.sigs))
+		sig := append(append([]byte{}, s.sigs[j]...), 0x01)
+		return "bitcoin.VerifyASN1+BIP66", ki, []byte{byte(boolU64(bitcoin.VerifyASN1(pub, s.digests[j], sig))), byte(boolU64(bitcoin.IsValidSignatureEncodingBIP0066(sig)))}
+	case 31:
+		h, err := bitcoin.PreHashSchnorrMessage("verif/c20", s.sigs[ki])
+		if err != nil {
+			return "PreHashSchnorrMessage", 300 + ki, []byte(err.Error())
+		}
+		sig, err := s.sprivs[ki].Sign(&fixedReader{data: s.digests[ki]}, h, nil)
+		return "PreHash+Schnorr Sign+Verify", 300 + ki, append(append(h, sig...), byte(boolU64(err == nil && s.spubs[ki].Verify(h, sig))))
+	case 32:
+		pk2, _ := k.Public().(*secec.PublicKey)
+		return "Public()/String()/Equal", ki, []byte(fmt.Sprint(pk2 != nil && pk2.Equal(pub), s.sprivs[ki].Equal(s.sprivs[rng.Intn(len(s.sprivs))]), s.spubs[ki].Equal(s.spubs[rng.Intn(len(s.spubs))])))
+	case 33:
+		spk, err := bitcoin.NewSchnorrPublicKeyFromPoint(s.points[pi])
+		if err != nil {
+			return "NewSchnorrPublicKeyFromPoint(shared point)", 100 + pi, []byte(err.Error())
+		}
+		spk2, err := bitcoin.NewSchnorrPublicKey(spk.Bytes())
+		return "NewSchnorrPublicKeyFromPoint(shared point)", 100 + pi, append(spk.Bytes(), []byte(fmt.Sprint(err == nil && spk2.Equal(spk)))...)
+	case 34:
+		var out []byte
+		for id := byte(0); id < 4; id++ {
+			p, err := secp256k1.RecoverPoint(s.scalars[si], id)
+			if err != nil {
+				out = append(out, 0xee)
+			} else {
+				out = append(out, p.CompressedBytes()...)
+			}
+		}
+		return "RecoverPoint(shared scalar)", 200 + si, out
+	case 35:
+		nk, err := secec.GenerateKey()
+		if err != nil {
+			return "GenerateKey+Sign+Verify", 500, []byte(err.Error())
+		}
+		dig := s.digests[ki]
+		sig, err := nk.Sign(nil, dig, &secec.ECDSAOptions{Hash: crypto.SHA256, SelfVerify: true})
+		sh1, e1 := nk.ECDH(pub)
+		sh2, e2 := k.ECDH(nk.PublicKey())
+		return "GenerateKey+Sign+Verify+ECDH", ki, []byte(fmt.Sprint(err == nil && nk.PublicKey().Verify(dig, sig, &secec.ECDSAOptions{Hash: crypto.SHA256, RejectMalleable: true}), e1 == nil && e2 == nil && bytes.Equal(sh1, sh2)))
+	case 36:
+		a, b := s.points[pi], s.points[rng.Intn(len(s.points))]
+		o := append(new(Point).ConditionalSelect(a, b, uint64(rng.Intn(2))).CompressedBytes(), new(Point).ConditionalNegate(a, uint64(rng.Intn(2))).CompressedBytes()...)
+		x, y := a.UncompressedBytes(), []byte(nil)
+		if len(x) == 65 {
+			x, y = x[1:33], x[33:]
+			q, err := secp256k1.NewPointFromCoords((*[32]byte)(x), (*[32]byte)(y))
+			o = append(o, byte(boolU64(err == nil && q.Equal(a) == 1)))
+		}
+		return "Point select/negate/from-coords (private receivers)", 100 + pi, o
+	case 37:
+		a, b := s.scalars[si], s.scalars[rng.Intn(len(s.scalars))]
+		o := append(secp256k1.NewScalar().Product(a, b, a).Bytes(), secp256k1.NewScalar().ConditionalSelect(a, b, uint64(rng.Intn(2))).Bytes()...)
+		o = append(o, secp256k1.NewScalar().ConditionalNegate(a, 1).Bytes()...)
+		o = append(o, secp256k1.NewScalar().Square(b).Bytes()...)
+		o = append(o, secp256k1.NewScalarFrom(a).Subtract(a, b).Bytes()...)
+		return "Scalar product/select/negate (private receivers)", 200 + si, o
 	default:
 		nk, err := secec.NewPublicKeyFromPoint(s.points[pi])
 		if err != nil {
